@@ -1,9 +1,12 @@
 \* C05: random nested expressions (run with -simulate num=N -depth D)
+\* Devs: deviations of the shipped code still open. Fixed in /repo and therefore removed (a regression is a VIOLATION):
+\* CondSameTypeNoConversion (ba99903), ConvertKeepsCompatible + SizeofSeesBitfield (4c7c95a), DerefDecayedArrayDropsQual (13d3f3d),
+\* UacKeepsWideEnum (60245bf)
 SPECIFICATION Spec
 CONSTANTS
   TargetSet = {"x86_64-sysv", "aarch64", "riscv64"}
   MaxDepth = 4
-  Devs = {"CondSameTypeNoConversion", "CompositeIsFirst", "UacKeepsWideEnum", "SizeofSeesBitfield", "ConvertKeepsCompatible", "ArrayQualOnArrayType", "DerefDecayedArrayDropsQual"}
+  Devs = {"CompositeIsFirst", "ArrayQualOnArrayType"}
   Emit = TRUE
 INVARIANTS Inv_Emit Inv_DevsExplain
 CHECK_DEADLOCK FALSE
